@@ -277,8 +277,95 @@ fn direct(v: &Value) -> Result<CaseResult, String> {
     Ok(play(&cfg, &mut next, true, fnv64(v.to_string().as_bytes())))
 }
 
+// ------------------------------------------------------------------------------------------------
+// LIVE pairs: the same agreement inside trading histories (pairs that hold liquidity, were swapped on,
+// migrated ...) - the factory-only worlds above never fund a pair
+
+/// trading histories in which one operation in seven is owner administration (mostly re-registrations)
+const ADMINISTERED: crate::hist::Profile = crate::hist::Profile {
+    name: "administered",
+    w: [10, 5, 8, 6, 2, 1, 3, 1, 0, 6],
+    adversarial_16: 1,
+    extra_ask_16: 0,
+    stray_coin_16: 0,
+    funds_games_16: 0,
+    max_pairs: 4,
+    connected: false,
+    hostile: false,
+    special: None,
+};
+
+#[derive(Default)]
+pub struct C17LiveOracle {
+    nontrivial: u64,
+}
+
+impl crate::sys::StepOracle for C17LiveOracle {
+    fn on_step(&mut self, cx: &mut crate::sys::StepCtx, classes: &mut Vec<&'static str>) -> Verdict {
+        // judged after every successful operation of the owner (re-registration, configuration, migrations)
+        if !cx.rec.outcome.is_ok() || cx.rec.step.sender != cx.world.owner.as_str() {
+            return Verdict::Pass;
+        }
+        let w = &*cx.world;
+        let re_registration = matches!(&cx.rec.step.call, Call::Factory { msg: FactoryExec::AddNativeTokenDecimals { .. } });
+        for (p, pr) in w.pairs.iter().enumerate() {
+            let want = [w.asset_decimals(pr.assets[0]), w.asset_decimals(pr.assets[1])];
+            let own: haloswap::asset::PairInfo = match w.query(pr.addr.as_str(), &haloswap::pair::QueryMsg::Pair {}) {
+                Ok(x) => x,
+                Err(e) => return Verdict::Fail(format!("step {}: pair{} no longer answers its Pair query after an owner operation: {}", cx.index, p, e)),
+            };
+            let rec: haloswap::asset::PairInfo = match w.query(w.factory.as_str(), &haloswap::factory::QueryMsg::Pair { asset_infos: pr.infos.clone() }) {
+                Ok(x) => x,
+                Err(e) => return Verdict::Fail(format!("step {}: the factory no longer finds pair{} after an owner operation: {}", cx.index, p, e)),
+            };
+            if own.asset_decimals != want || rec.asset_decimals != want {
+                let (_, _, supply) = w.pool(p);
+                return Verdict::Fail(format!(
+                    "step {}: after {} the registered decimals of pair{}'s assets [{}, {}] are {:?}, the factory's record says {:?} and the pair (LP supply {}) describes itself with {:?}",
+                    cx.index, if re_registration { "a re-registration" } else { "an owner operation" }, p, pr.infos[0], pr.infos[1], want, rec.asset_decimals, supply, own.asset_decimals
+                ));
+            }
+            if re_registration {
+                let (_, _, supply) = w.pool(p);
+                if let Call::Factory { msg: FactoryExec::AddNativeTokenDecimals { denom, .. } } = &cx.rec.step.call {
+                    if pr.infos.iter().any(|i| matches!(i, AssetInfo::NativeToken { denom: d } if d == denom)) {
+                        if supply > 0 {
+                            self.nontrivial += 1;
+                            classes.push("live:re-registered-denom-in-funded-pair");
+                        } else {
+                            classes.push("live:re-registered-denom-in-empty-pair");
+                        }
+                    }
+                }
+            }
+        }
+        classes.push("live:owner-operation-judged");
+        Verdict::Pass
+    }
+    fn nontrivial(&self) -> bool {
+        self.nontrivial > 0
+    }
+}
+
+fn run_live(t: &Tape, want_desc: bool) -> CaseResult {
+    let mut o = C17LiveOracle::default();
+    let h = crate::sys::run_history(t, &ADMINISTERED, 13, &mut o, want_desc);
+    crate::sys::hist_case(t, h)
+}
+
 pub fn suites() -> Vec<Suite> {
     vec![Suite {
+        name: "live_pairs",
+        about: "trading histories (provisions, withdrawals, swaps, routes) with owner administration interleaved; after every successful owner operation registered decimals == factory record == self-description of EVERY pair, funded or not",
+        head_len: crate::hist::HEAD_LEN,
+        op_len: crate::hist::OP_LEN,
+        max_ops: 24,
+        quick_cases: 6_000,
+        thorough_cases: 150_000,
+        run: run_live,
+        direct: Some(crate::sys::direct_with::<C17LiveOracle>),
+        must_hit: &["live:re-registered-denom-in-funded-pair", "live:owner-operation-judged"],
+    }, Suite {
         name: "decimals_updates",
         about: "histories mixing bursts of pair creations (registry sizes 1..40, straddling the listing limits 10 and 30) with first registrations and re-registrations of native decimals; after every operation factory record == pair self-description == model for every pair and every denom",
         head_len: FACTORY_HEAD,
